@@ -472,7 +472,7 @@ func factsHandshake() {
 			"24-bit length must equal the rest of the record")
 		// the walk: order of pointer advances and of the slices taken
 		var adv []string
-		for _, e := range events(fn) {
+		for _, e := range rawEvents(fn) {
 			if e.kind == "assign" {
 				if s := e.node.(*ast.AssignStmt); s.Tok == token.ADD_ASSIGN && show(s.Lhs[0]) == "pointer" {
 					adv = append(adv, show(s.Rhs[0]))
